@@ -432,3 +432,36 @@ def constructors_store_children(ctx):
     ctx.oblige("C12/Reshape.__init__/struct/constructs", len(paths) >= 1, [], props, kind="applicability", fn=f"{uq}.Reshape.__init__")
     for n_, p in enumerate(paths):
         ctx.oblige(f"C12/Reshape.__init__/post/stores_the_child_it_was_given#{n_}", p.value.bijection is child, [], props, kind="struct", fn=f"{uq}.Reshape.__init__", replay=dict(kind="c12", vars={}))
+
+
+@family("shapes/Vmap._infer_axis_size_from_params", ["C08", "C13"])
+def vmap_infer_axis_size(ctx):
+    """the axis size a Vmap declares is the length of the mapped axis of the child's mapped array leaves (so that the declared
+    shape (axis_size, *child.shape) is the shape the vmapped methods accept); ValueError iff in_axes maps no leaf"""
+    it = ctx.interp
+    props = ["C08", "C13"]
+    q = "flowjax.bijections.jax_transforms"
+    fn = it.repo_function(f"{q}._infer_axis_size_from_params")
+    a, k = z3.Ints("axis_size k")
+
+    class Arr:
+        is_array = True
+
+        def __init__(self, shape):
+            self.shape = shape
+
+    cls = it.repo_class("flowjax.bijections.affine.Loc")  # any module class: only the pytree structure matters
+    leaf1, leaf2 = Arr((SV(a), SV(k))), Arr((SV(a),))
+    tree = Obj(cls, loc=leaf1, shape=())
+    tree2 = Obj(cls, loc=(leaf1, leaf2), shape=())
+    rp = dict(kind="shapes", cls="Vmap", vars={})
+    if_array0 = lambda leaf: 0 if isinstance(leaf, Arr) else None  # noqa: E731  (eqx.if_array(0))
+    for tag, tr, spec, want in (("int_0", tree, 0, a), ("callable_if_array_0", tree, if_array0, a), ("int_1", tree, 1, k), ("two_leaves_callable", tree2, if_array0, a)):
+        paths = it.explore(lambda tr=tr, spec=spec: fn(tr, spec))
+        okp = [p for p in paths if p.outcome == "return"]
+        ctx.oblige(f"C08/_infer_axis_size_from_params[{tag}]/struct/returns", len(okp) >= 1, [], props, kind="applicability", fn=f"{q}._infer_axis_size_from_params")
+        for n_, p in enumerate(okp):
+            ctx.oblige(f"C08/_infer_axis_size_from_params[{tag}]/post/size_of_the_mapped_axis#{n_}", lift(p.value) == want, p.cond, props, fn=f"{q}._infer_axis_size_from_params", replay=rp)
+    paths = it.explore(lambda: fn(tree, None))
+    ctx.oblige("C13/_infer_axis_size_from_params[none]/post/raises_when_nothing_is_mapped", len(paths) >= 1 and all(p.outcome == "raise" and p.value.exc == "ValueError" for p in paths), [], props, kind="struct",
+               fn=f"{q}._infer_axis_size_from_params", replay=rp)
